@@ -69,6 +69,27 @@ def main(tier, replay=None):
                        'wildcard patterns contain no [ or ]']
     if replay:
         c = json.load(open(replay))['case']
+        if 'items' in c['in']:
+            sg = lambda v: {'neg': v < 0, 'ds': [ord(ch) for ch in str(abs(v))]}
+            bp = lib.Parser()
+            x, items = int(c['in']['x']), [int(i) for i in c['in']['items']]
+            bp.set_variable('vx', x)
+            bp.set_variable('vi', list(items))
+            r = bp.parse('MATCH(vx,vi,0)')
+            pos = r['result'] if r['error'] is None and isinstance(r['result'], int) and not isinstance(r['result'], bool) else (0 if r['error'] == '#N/A' else -1)
+            o = {'id': 1, 'kind': 'bigmatch', 'op': 'match', 'a': sg(x), 'b': sg(0), 'k': 0, 'items': [sg(i) for i in items], 'pos': pos,
+                 'formula': 'MATCH(vx,vi,0)', 'out': {'int': False, 'neg': False, 'ds': [48]}, 'out2': {'int': False, 'neg': False, 'ds': [48]}, 'in': c['in']}
+            v = core.validate_obs(run, 'Trace_Big', [o], 'replay')
+            core.tally(run, [o], v, 'c18-big', key=lambda o: json.dumps(o['in'], sort_keys=True))
+            return run.finish()
+        if 'manyvalues' in c['in']:
+            import harness.formula as F2
+            h = F2.Harnessed(lib, c['env'])
+            o = h.parse(c['formula'])
+            o.update({'id': 1, 'ast': c['ast'], 'env': c['env'], 'formula': c['formula'], 'checks': ['value'], 'in': c['in']})
+            v = core.validate_obs(run, 'Trace_Eval', [o], 'replay', consts)
+            core.tally(run, [o], v, 'c18')
+            return run.finish()
         if c['in'].get('after_mutation'):
             allobs = fncases.observe_after_mutation(lib, [c['in']])
         else:
@@ -86,11 +107,54 @@ def main(tier, replay=None):
     run.extra['tlc_cases'] = len(cases)
     rng = random.Random(run.seed)
     cases += [rand_case(rng) for _ in range(4000 if quick else 100000)]
+    # INDEX / MATCH on text arrays that hold the empty text
+    for _ in range(60 if quick else 2000):
+        n = rng.randint(2, 6)
+        a = [rng.choice(['', '', 'a', 'b', ' ']) for _ in range(n)]
+        cases.append({'f': 'INDEX', 'args': [enc(a), enc(rng.randint(1, n))]})
+        cases.append({'f': 'MATCH', 'args': [enc(rng.choice(['', 'a', ' '])), enc(a), enc(0)]})
     obs = fncases.observe(lib, cases, ranges=True, twins=True)
+    # CHOOSE with as many values as a call can hold (253, 254, 255): still the i-th one
+    import harness.formula as F2
+    extra = []
+    for nvals in (253, 254, 100):      # (254 values is the most a spreadsheet call can hold)
+        for i in (1, 2, nvals - 1, nvals, nvals + 1, 0):
+            ast = F2.call('CHOOSE', F2.var('aa'), *[F2.num(str(1000 + k)) for k in range(1, nvals + 1)])
+            env = F2.empty_env()
+            env['vars'] = {'aa': enc(i)}
+            h = F2.Harnessed(lib, env)
+            text = F2.render(ast)
+            o = h.parse(text)
+            o.update({'ast': ast, 'env': env, 'formula': text, 'checks': ['value'],
+                      'in': {'f': 'CHOOSE', 'args': [enc(i)] + [enc(1000 + k) for k in range(1, nvals + 1)], 'formula': text, 'manyvalues': nvals}})
+            extra.append(o)
     # the host edits its table in place between two evaluations of the same call
     mo = fncases.observe_after_mutation(lib, [c for c in cases if c['f'] in ('INDEX', 'MATCH')][:1500 if quick else 40000])
     run.extra['evaluations_after_in_place_edit'] = len(mo)
     obs += mo
+    for o in extra:
+        o['id'] = len(obs) + 1
+        obs.append(o)
+    # MATCH among integers that agree in their first fifteen digits (Trace_Big): the first item equal to x, not a near one
+    sg = lambda v: {'neg': v < 0, 'ds': [ord(c) for c in str(abs(v))]}
+    bp = lib.Parser()
+    big = []
+    for _ in range(120 if quick else 4000):
+        base = rng.randint(10 ** 15, 10 ** 19)
+        items = [base + d for d in rng.sample(range(-3, 4), rng.randint(2, 5))]
+        x = rng.choice(items + [base + 9, items[-1]])
+        bp.set_variable('vx', x)
+        bp.set_variable('vi', list(items))
+        r = bp.parse('MATCH(vx,vi,0)')
+        pos = r['result'] if r['error'] is None and isinstance(r['result'], int) and not isinstance(r['result'], bool) else (0 if r['error'] == '#N/A' else -1)
+        big.append({'kind': 'bigmatch', 'op': 'match', 'a': sg(x), 'b': sg(0), 'k': 0, 'items': [sg(i) for i in items], 'pos': pos,
+                    'formula': 'MATCH(vx,vi,0)', 'out': {'int': False, 'neg': False, 'ds': [48]}, 'out2': {'int': False, 'neg': False, 'ds': [48]},
+                    'in': {'x': str(x), 'items': [str(i) for i in items]}})
+    for n, o in enumerate(big, 1):
+        o['id'] = n
+    vb = core.validate_obs(run, 'Trace_Big', big, 'big')
+    core.tally(run, big, vb, 'c18-big', key=lambda o: json.dumps(o['in'], sort_keys=True))
+    run.extra['big_integer_lookups'] = len(big)
     so = suite.observations({'CHOOSE','INDEX','MATCH'}, len(obs) + 1)   # the same functions as the repository's own tests call them
     run.extra['calls_from_repository_tests'] = len(so)
     obs += so
